@@ -72,7 +72,7 @@ func runInterleaveCell(dir string, spec icellSpec, variant int, seed int64, r *e
 		return
 	}
 	defer w.shutdown()
-	replay := map[string]interface{}{"site": spec.Site, "op": spec.Op, "variant": variant, "seed": seed}
+	replay := map[string]interface{}{"site": spec.Site, "op": spec.Op, "variant": variant, "seed": seed, "batch": curBatch}
 	var aborted atomic.Bool
 	mismatch := func(what, got string, want bool) {
 		if isErr(got) { // transport level failure (CPU starvation): the outcome is unknown, the cell is not judged
@@ -147,8 +147,9 @@ func runInterleaveCell(dir string, spec icellSpec, variant int, seed int64, r *e
 	deliver := func(b []byte) {
 		now := w.now()
 		if viaSocket {
-			if err := udpSendOn(w.udp, b, 1); err != nil {
+			if err := udpSendOn(w.udp, b, 1); err != nil { // datagram lost on loopback / listener starved: the cell is not judged
 				r.Inconc("interleave cell " + name + ": " + err.Error())
+				aborted.Store(true)
 			}
 		} else {
 			w.Inject(b)
@@ -316,7 +317,7 @@ func childInterleave(b run.Batch, r *ev.Result) {
 			continue
 		}
 		runInterleaveCell(filepath.Join(b.Dir, fmt.Sprintf("i%d", c.Idx)), c, variant, b.Seed*1000+int64(c.Idx), r)
-		if r.NumViolations() > 5 {
+		if r.NumViolations() > 5 || abandoned.Load() {
 			return
 		}
 	}
